@@ -78,6 +78,24 @@ def load_manifest_level(prop: str) -> str:
     return "model_checking"
 
 
+# which harness families matter most for a property (substring of the harness name, in order of priority): used only to ORDER the
+# quick-tier selection — the thorough tier runs everything
+PRIORITY = {
+    "C01": ["roundtrip", "accepts_spec", "is_spec"], "C02": ["tamper", "boundary", "shift", "refused"], "C03": ["is_spec", "accepts_spec"],
+    "C04": ["usable", "zero_iter", "identity", "short", "len_", "codec"], "C05": ["roundtrip", "params_acceptance", "is_spec"],
+    "C06": ["tamper", "len_", "short", "relabel"], "C07": ["is_spec", "accepts_spec", "contract", "params"],
+    "C08": ["codec", "encode", "decode", "signs_verifiably", "valid_point"], "C10": ["codec", "relabel", "binding", "constants"],
+    "C12": ["tamper", "short", "unseal_contract"], "C16": ["fail_closed", "random", "own_nonce"],
+}
+
+
+def priority_rank(prop: str, name: str) -> int:
+    for i, sub in enumerate(PRIORITY.get(prop, [])):
+        if sub in name:
+            return i
+    return 99
+
+
 def boundary_first(hs: list) -> list:
     """Order numeric families (`unseal_short_0, _31, _63, _64, _66`) so that the middle members — the ones next to the length
     boundary the family brackets — come first; other harnesses keep their declaration order."""
@@ -227,12 +245,6 @@ def main(argv=None):
     units = load_units()
     known = json.loads(KNOWN.read_text()) if KNOWN.exists() else {"known": [], "fixed": []}
     logdir = LOGS / f"{prop}-{tier}"
-    if logdir.exists():
-        import shutil
-        shutil.rmtree(logdir, ignore_errors=True)
-    logdir.mkdir(parents=True, exist_ok=True)
-    EVID.mkdir(parents=True, exist_ok=True)
-    REPLAYS.mkdir(parents=True, exist_ok=True)
 
     # select harnesses
     cap = int(os.environ.get("VERIF_QUICK_CAP", "4"))
@@ -258,13 +270,21 @@ def main(argv=None):
                 continue
             if hre:
                 hs = [h for h in hs if re.search(hre, h.name)]
-        elif tier == "quick" and len(hs) > (u.quick_cap or cap):
+        elif tier == "quick":
             cap_u = u.quick_cap or cap
-            # quick tier: at most `cap` harnesses per unit and property — canaries first (vacuity guard), then the harnesses whose
-            # primary (first-listed) property is this one, then declaration order; the rest runs in the thorough tier
+            # quick tier: at most `cap` expensive harnesses per unit and property — ordered by the property's priority families, then
+            # harnesses whose primary (first-listed) property is this one, then declaration order; canary last; the rest runs in the
+            # thorough tier. Harnesses that cost at most 60 s do not count against the cap.
             canaries = [h for h in hs if h.expect == "fail"][:1]
-            rest = sorted(boundary_first([h for h in hs if h.expect != "fail"]), key=lambda h: 0 if h.props[0] == prop else 1)
-            hs = rest[:cap_u - len(canaries)] + canaries
+            rest = sorted(boundary_first([h for h in hs if h.expect != "fail"]), key=lambda h: (priority_rank(prop, h.name), 0 if h.props[0] == prop else 1))
+            cheap = lambda h: timings.get(f"{u.name}::{h.name}", 120.0) <= 60.0
+            keep, n_exp = [], 0
+            for h in rest:
+                if cheap(h) and len(keep) < 2 * cap_u:
+                    keep.append(h)
+                elif n_exp < cap_u - len(canaries):
+                    keep.append(h); n_exp += 1
+            hs = keep + canaries
         if hs:
             selected[u.name] = hs
     if not selected:
@@ -284,11 +304,16 @@ def main(argv=None):
             if len(us) > 1 and total > gcap:
                 picked = {u.name: [] for u in us}
                 i, n = 0, 0
-                while n < gcap:
+                while True:
                     progressed = False
                     for u in us:
-                        if i < len(selected[u.name]) and n < gcap:
-                            picked[u.name].append(selected[u.name][i]); n += 1; progressed = True
+                        if i < len(selected[u.name]):
+                            h = selected[u.name][i]
+                            progressed = True
+                            if timings.get(f"{u.name}::{h.name}", 120.0) <= 60.0:
+                                picked[u.name].append(h)          # cheap harnesses do not count against the group cap
+                            elif n < gcap:
+                                picked[u.name].append(h); n += 1
                     if not progressed:
                         break
                     i += 1
@@ -315,12 +340,17 @@ def main(argv=None):
             queues[g] = q
         kept = {un: [] for un in selected}
         spent, i = 0.0, 0
+        cheap_spent, cheap_budget = 0.0, float(os.environ.get("VERIF_QUICK_CHEAP_BUDGET_S", "1500"))
         while any(i < len(q) for q in queues.values()):
             for g, q in queues.items():
                 if i < len(q):
                     un, h = q[i]
                     c = cost(un, h)
-                    if spent + c <= budget or not kept[un] and i == 0:
+                    # cheap harnesses (<= 60 s) are nearly free next to the builds: they bypass the budget up to a separate allowance
+                    if c <= 60.0 and cheap_spent + c <= cheap_budget:
+                        kept[un].append(h)
+                        cheap_spent += c
+                    elif spent + c <= budget or not kept[un] and i == 0:
                         kept[un].append(h)
                         spent += c
             i += 1
@@ -339,8 +369,14 @@ def main(argv=None):
     if plan_only:
         for mu, hs_ in plan:
             print(mu.name + ": " + " ".join(f"{h.unit}::{h.name}" for h in hs_))
-        print("total", sum(len(h) for _, h in plan))
+        print("total", sum(len(h) for _, h in plan), "estimated harness-seconds", round(sum(timings.get(f"{h.unit}::{h.name}", 120.0) for _, hs_ in plan for h in hs_)))
         return 0
+    if logdir.exists():
+        import shutil
+        shutil.rmtree(logdir, ignore_errors=True)
+    logdir.mkdir(parents=True, exist_ok=True)
+    EVID.mkdir(parents=True, exist_ok=True)
+    REPLAYS.mkdir(parents=True, exist_ok=True)
     results: list[HarnessResult] = []
     unit_info = {}
     undecided_units = []
